@@ -136,6 +136,26 @@ impl TlsRecordsParser {
     }
 }
 
+/// Verification hooks (compiled only with `--cfg tls_parser_verif`): read-only views of the
+/// defragmenter state and a constructor for an arbitrary state.
+#[cfg(tls_parser_verif)]
+impl TlsRecordsParser {
+    pub fn verif_buffer(&self) -> &[u8] {
+        &self.record_defrag_buffer
+    }
+
+    pub fn verif_current_type(&self) -> Option<TlsRecordType> {
+        self.current_record_type
+    }
+
+    pub fn verif_from_parts(buffer: Vec<u8>, current: Option<TlsRecordType>) -> Self {
+        TlsRecordsParser {
+            record_defrag_buffer: buffer,
+            current_record_type: current,
+        }
+    }
+}
+
 #[cfg(test)]
 mod tests {
     use crate::{parse_tls_raw_record, TlsMessageHandshake, TlsVersion};
